@@ -200,10 +200,26 @@ def run_c05(res, tier, seed, want_c18=False):
                        "at emission is the oracle. non-trivial = value occurrence whose name has at least two binders in the workspace")
 
 
+def clash_known(ws, d):
+    """the recorded value/type import clash: the exporting module declares a type named like the imported value
+    whose declaration is inserted AFTER it (functions and constants always precede types; a constructor precedes
+    every type that comes after its own type in source order)"""
+    m = ws.modules[d.module]
+    order = [t for t in getattr(m, "render_order", []) if t.kind == "type"]
+    clash = [t for t in order if t.name == d.name]
+    if not clash:
+        return False
+    if d.kind in ("fn", "const"):
+        return True
+    if d.kind == "variant" and d.parent in order:
+        return any(order.index(t) > order.index(d.parent) for t in clash)
+    return False
+
+
 def classify_c05(o, got, exp, ws=None):
     if ws is not None and o.expect and o.expect[0] == "M" and o.ns in ("value", "constructor", "pattern-constructor", "import-value"):
         d = o.expect[1]
-        if d.module != o.file and any(t.kind == "type" and t.name == d.name for t in ws.modules[d.module].decls):
+        if d.module != o.file and clash_known(ws, d):
             return "C05/import-value-type-clash"
     if o.stream == "guard":
         return "C05/guard-not-lowered"
@@ -242,7 +258,7 @@ def check_completion(res, ws, o, a, mk):
         aliased = {(al or name): d.name for (ti, alias, unq) in m.imports for (name, al, is_type, d) in unq
                    if not is_type and al and d.kind in ("fn", "variant")}
         clash = {(al or name) for (ti, alias, unq) in m.imports for (name, al, is_type, d) in unq
-                 if not is_type and any(t.kind == "type" and t.name == d.name for t in ws.modules[d.module].decls)}
+                 if not is_type and clash_known(ws, d)}
         causes = {}
         for x in missing:
             k = ("C18/aliased-import-offered-under-original-name" if x in aliased else
